@@ -52,6 +52,46 @@ type Connection struct {
 	// Message queue for backpressure handling
 	messageQueue [][]byte
 	queueMu      sync.Mutex
+
+	// sendMu orders senders against the hub closing the send channel: senders
+	// hold it shared, closeSend holds it exclusively, so nothing sends on (or
+	// closes) a channel that is already closed.
+	sendMu     sync.RWMutex
+	sendClosed bool
+}
+
+// trySend queues a message without blocking. It reports false when the queue is
+// full or the connection's send channel has been closed.
+func (c *Connection) trySend(message []byte) bool {
+	c.sendMu.RLock()
+	defer c.sendMu.RUnlock()
+	if c.sendClosed {
+		return false
+	}
+	select {
+	case c.send <- message:
+		return true
+	default:
+		return false
+	}
+}
+
+// closeSend closes the send channel exactly once.
+func (c *Connection) closeSend() {
+	c.sendMu.Lock()
+	defer c.sendMu.Unlock()
+	if !c.sendClosed {
+		c.sendClosed = true
+		close(c.send)
+	}
+}
+
+// clearRooms forgets the connection's own record of its rooms (used when the
+// hub removes the connection from every room).
+func (c *Connection) clearRooms() {
+	c.roomsMu.Lock()
+	c.rooms = make(map[string]bool)
+	c.roomsMu.Unlock()
 }
 
 // RoutePattern returns the route pattern this connection matched
@@ -230,40 +270,65 @@ func (c *Connection) WritePump() {
 func (c *Connection) Send(message []byte) error {
 	config := c.hub.config
 
+	c.sendMu.RLock()
+	if c.sendClosed {
+		c.sendMu.RUnlock()
+		return ErrConnectionClosed
+	}
+
 	select {
 	case c.send <- message:
+		c.sendMu.RUnlock()
 		return nil
 	default:
-		// Channel is full, apply backpressure strategy
-		switch config.MessageQueueStrategy {
-		case QueueStrategyDropOldest:
-			// Try to drop the oldest message
-			select {
-			case <-c.send:
-				c.hub.metrics.IncrementDroppedMessages()
-			default:
-			}
-			// Try again to send
-			select {
-			case c.send <- message:
-				return nil
-			default:
-				c.hub.metrics.IncrementQueueOverflows()
+	}
+
+	// Channel is full, apply backpressure strategy
+	switch config.MessageQueueStrategy {
+	case QueueStrategyDropOldest:
+		defer c.sendMu.RUnlock()
+		// Try to drop the oldest message
+		select {
+		case <-c.send:
+			c.hub.metrics.IncrementDroppedMessages()
+		default:
+		}
+		// Try again to send
+		select {
+		case c.send <- message:
+			return nil
+		default:
+			c.hub.metrics.IncrementQueueOverflows()
+			return ErrConnectionClosed
+		}
+
+	case QueueStrategyDropNewest:
+		c.sendMu.RUnlock()
+		// Drop the new message
+		c.hub.metrics.IncrementDroppedMessages()
+		c.hub.metrics.IncrementQueueOverflows()
+		return nil
+
+	case QueueStrategyBlock:
+		fallthrough
+	default:
+		c.sendMu.RUnlock()
+		// Block until space is available or the connection closes. The lock is
+		// not held while waiting, so the hub can still close the channel.
+		for {
+			c.sendMu.RLock()
+			if c.sendClosed {
+				c.sendMu.RUnlock()
 				return ErrConnectionClosed
 			}
-
-		case QueueStrategyDropNewest:
-			// Drop the new message
-			c.hub.metrics.IncrementDroppedMessages()
-			c.hub.metrics.IncrementQueueOverflows()
-			return nil
-
-		case QueueStrategyBlock:
-			fallthrough
-		default:
-			// Block until space is available or connection closes
-			c.send <- message
-			return nil
+			select {
+			case c.send <- message:
+				c.sendMu.RUnlock()
+				return nil
+			default:
+			}
+			c.sendMu.RUnlock()
+			time.Sleep(time.Millisecond)
 		}
 	}
 }
